@@ -16,6 +16,8 @@ CLAIM = (
     "non-null counter sits in a `with ExitStack()` and is immediately followed by a registered decrement of the same key; "
     "(4) Optional is stripped only when the counter says so; (5) _Inferrer and _Canonicalizer implement every node kind; "
     "(6) the inference result is read before transpiling in all six targets."
+    " SHADOW: a loop variable of a generator is rejected when any enclosing scope defines the name (lookup through Environment.find and its parents); "
+    "SKIPS: the inferrer and the checkers of the contracts have no fewer unconditional descents into sub-expressions and no more skips than the reference."
 )
 NOTE = (
     "Trusted base: the requirement table (Python semantics: which operands are dereferenced), one line of reason per row in this file. "
@@ -52,6 +54,7 @@ TABLE = [
 def run(ctx) -> None:
     p = ctx.p
     ctx.rule("NONNULL", "operands that Python dereferences are rejected when Optional (error appended, no non-None return reachable)", floor=18)
+    ctx.rule("SHADOW", "a generator variable is rejected when ANY enclosing scope already defines the name (non-nullness is tracked by the text of an expression)", floor=2)
     ctx.rule("POLARITY", "and/implication narrow on IsNotNone, or narrows on IsNone", floor=3)
     ctx.rule("PAIR", "every non-null increment is paired with a registered decrement of the same key inside an ExitStack", floor=4)
     ctx.rule("STRIP", "Optional stripped only under the non-null counter", floor=1)
@@ -64,6 +67,7 @@ def run(ctx) -> None:
         m = inf.methods.get(method)
         ctx.require_anchor(m is not None, f"_Inferrer.{method} exists")
         _check_nonnull(ctx, m, operand, reason)
+    _check_shadowing(ctx, inf)
     _check_polarity(ctx, inf)
     _check_pairs(ctx, inf)
     _check_strip(ctx, inf)
@@ -90,6 +94,14 @@ def run(ctx) -> None:
             n += 1
             err.check_err12(ctx, f, "ERR1", "ERR1v", "ERR2")
     ctx.require_anchor(n >= 6, "the targets call the type inference")
+    ctx.rule("SKIPS", "the type inference and the contract checker have no fewer unconditional descents and no more skips than the reference read on the unchanged tree", floor=20)
+    from ..rules import skips as _skips
+    _base = _skips.load_baseline()
+    for _m in ctx.p.modules.values():
+        if _m.name in ("aas_core_codegen.intermediate.type_inference", "aas_core_codegen.intermediate._translate"):
+            for _f in _m.functions.values():
+                _skips.check_skips(ctx, _f, "SKIPS", _base)
+
 
 
 def _operand_var(m, operand: str) -> Optional[Tuple[str, ast.AST]]:
@@ -251,3 +263,43 @@ def _check_strip(ctx, inf) -> None:
         ctx.ok("STRIP", m, m.node, what="the stripped type is returned only under self._non_null.at_least_once(...)")
     else:
         ctx.fail("STRIP", m, m.node, "Optional is stripped on a path that does not consult the non-null counter", construct="strip guard")
+
+
+def _check_shadowing(ctx, inf) -> None:
+    """Non-nullness facts are keyed by the canonical TEXT of an expression (`self.label`).  If a generator could re-bind a name
+    that an enclosing scope defines (`for self in self.children`), a fact about the outer `self.label` would be applied to the
+    inner one.  The inferrer therefore rejects a loop variable that is already defined - looked up through the whole chain
+    of environments (Environment.find consults `parent`), not only in the innermost mapping."""
+    p = ctx.p
+    env = p.cls(f"{TI}:Environment")
+    find = env.methods.get("find")
+    ctx.require_anchor(find is not None, "Environment.find exists")
+    chain = any(isinstance(n, ast.Attribute) and n.attr == "parent" for n in ast.walk(find.node)) and any(
+        isinstance(c, ast.Call) and isinstance(c.func, ast.Attribute) and c.func.attr == "find" for c in ast.walk(find.node))
+    for name in ("transform_for_each", "transform_for_range"):
+        m = inf.methods.get(name)
+        ctx.require_anchor(m is not None, f"_Inferrer.{name} exists")
+        what = f"_Inferrer.{name}: the loop variable is looked up in all enclosing scopes before it is bound"
+        # the test that guards the `already defined` error
+        guard = None
+        for n in walk_function_body(m.node):
+            if isinstance(n, ast.If) and any(isinstance(c, ast.Call) and dotted_of(c.func) == "self.errors.append" for b in n.body for c in ast.walk(b)) \
+                    and any(isinstance(r, ast.Return) for b in n.body for r in ast.walk(b)):
+                names = {x.id for x in ast.walk(n.test) if isinstance(x, ast.Name)}
+                txt = ast.unparse(n.test)
+                if "node.variable" in txt or names:
+                    guard = n
+                    break
+        if guard is None:
+            ctx.fail("SHADOW", m, m.node, f"{name} no longer rejects a loop variable that is already defined: a generator can shadow `self` or an argument, and non-nullness facts about the outer name are applied to the inner one", construct=what)
+            continue
+        # where does the tested value come from?
+        srcs = [guard.test]
+        for n in walk_function_body(m.node):
+            if isinstance(n, ast.Assign) and isinstance(n.targets[0], ast.Name) and n.targets[0].id in {x.id for x in ast.walk(guard.test) if isinstance(x, ast.Name)}:
+                srcs.append(n.value)
+        uses_find = any(isinstance(c, ast.Call) and isinstance(c.func, ast.Attribute) and c.func.attr == "find" and "_environment" in ast.unparse(c.func.value) for s_ in srcs for c in ast.walk(s_))
+        if uses_find and chain:
+            ctx.ok("SHADOW", m, guard, what=what)
+        else:
+            ctx.fail("SHADOW", m, guard, f"{name} tests `{short(guard.test)}` (from {[short(x) for x in srcs[1:]] or 'the test itself'}), which does not go through Environment.find and its chain of parent scopes: a loop variable may shadow a name of an enclosing scope (`for self in self.children`), and the non-nullness established for the outer `self.x` is then applied to the inner one", construct=what)
